@@ -297,6 +297,21 @@ pub fn check_scans(d: &Driver, full: bool, out: &mut Vec<Violation>, stats: &mut
                 }
                 Err(e) => out.push(v("sizes-err", format!("iter({s}).size() Err {e:?}"))),
             }
+            // conditional guards: value only for keys the predicate accepts (every second key)
+            let want: Vec<(Vec<u8>, Option<Vec<u8>>)> = model.iter().enumerate().map(|(i, (k, x))| (k.clone(), if i % 2 == 0 { Some(x.clone()) } else { None })).collect();
+            let accept: std::collections::BTreeSet<Vec<u8>> = want.iter().filter(|(_, x)| x.is_some()).map(|(k, _)| k.clone()).collect();
+            let got: Result<Vec<(Vec<u8>, Option<Vec<u8>>)>, _> = t
+                .iter(s, None)
+                .map(|g| g.into_inner_if(|k| accept.contains(&k.to_vec())).map(|(k, x)| (k.to_vec(), x.map(|x| x.to_vec()))))
+                .collect();
+            match got {
+                Ok(got) => {
+                    if got != want {
+                        out.push(v("inner-if-mismatch", format!("iter({s}).into_inner_if(every second key) = {got:?}, model {want:?}")));
+                    }
+                }
+                Err(e) => out.push(v("inner-if-err", format!("iter({s}).into_inner_if Err {e:?}"))),
+            }
         }
         if !out.is_empty() {
             return;
